@@ -1,8 +1,8 @@
 #!/bin/sh
-# tools/seed_try.sh <seed-name> <PROP> [more PROPs...] — apply seeded/<name>/patch.diff to /repo, run the quick checks, undo.
+# tools/seed_try.sh <seed-name> <PROP> [extra tools/check args...] — apply seeded/<name>/patch.diff to /repo, run the check, undo.
 # (development aid; the recorded verdicts come from tools/seed_eval.py / tools/seed_recheck.py)
-N=$1; shift
+N=$1; P=$2; shift 2
 [ -z "$(git -C /repo status --porcelain --untracked-files=no)" ] || { echo "refusing: /repo has local modifications"; exit 2; }
 git -C /repo apply /verif/seeded/$N/patch.diff || exit 2
-for P in "$@"; do /verif/tools/check $P --tier ${TIER:-quick} --no-evidence 2>&1 | grep -v '^VIOLATION' | cut -c1-330 | tail -${LINES_:-8}; done
+/verif/tools/check $P --tier ${TIER:-quick} --no-evidence "$@" 2>&1 | grep -v '^VIOLATION' | cut -c1-330 | tail -${LINES_:-8}
 git -C /repo checkout -- .
